@@ -130,6 +130,8 @@ type gen struct {
 	// gets a run of "other" white space; 0 = the plain generator
 	zoo  int
 	note zooNote
+	// labels of the collection-source / access-chain grammar (splat_test.go)
+	labs map[string]bool
 }
 
 // uni draws a (nearly) uniform integer in [0,n). rapid's integer generators are biased
@@ -156,7 +158,9 @@ func (g *gen) pick(xs []string) string { return xs[uni(g.t, len(xs))] }
 func (g *gen) w(s string)              { g.sb.WriteString(s) }
 
 var idents = []string{"a", "b", "c", "foo", "bar_baz", "var", "local", "each", "self", "x1", "_u", "k", "v", "i",
-	"for", "in", "if", "else", "endif", "endfor", "true", "false", "null", "héllo", "名前", "a-b", "blk", "lbl", "lbl2", "f", "upper", "length", "try", "can", "concat"}
+	"for", "in", "if", "else", "endif", "endfor", "true", "false", "null", "héllo", "名前", "a-b", "blk", "lbl", "lbl2", "f", "upper", "length", "try", "can", "concat",
+	// variables of collCtx (splat_test.go): typed lists / sets / maps with empty rows
+	"ll", "lo", "sl", "ml", "le", "lu"}
 
 var spaces = []string{"", "", " ", " ", "  ", "\t", " \t "}
 
@@ -213,7 +217,10 @@ func (g *gen) expr(d int) {
 		g.leaf()
 		return
 	}
-	switch g.n(0, 21) {
+	switch g.n(0, 22) {
+	case 22:
+		// access chain (splats, index, traversal) over a collection-valued source (splat_test.go)
+		g.collChain(d - 1)
 	case 0, 1, 2:
 		g.leaf()
 	case 3:
@@ -799,7 +806,7 @@ func genGrammarL(t *rapid.T, kind string, zoo int) ([]byte, []string) {
 		}
 		g.jws()
 	}
-	return append([]byte(nil), g.sb.Bytes()...), g.note.labels()
+	return append([]byte(nil), g.sb.Bytes()...), g.labels()
 }
 
 // ---------------------------------------------------------------------------------
@@ -1042,12 +1049,17 @@ func genCase(t *rapid.T) Case {
 		// its blank-tolerating positions; the labels travel in Mut
 		c.Gen = "wszoo"
 		c.Src, c.Mut = genZoo(t, kind)
-	case cls < 76:
+	case cls < 41:
+		// access chains (splat / index / traversal) over collection-valued sources
+		// (splat_test.go); the labels travel in Mut
+		c.Gen = "splat"
+		c.Src, c.Mut = genSplat(t, kind)
+	case cls < 77:
 		c.Gen = "grammar"
 		if uni(t, 100) < 15 {
 			c.Src, c.Mut = genGrammarL(t, kind, []int{5, 10, 20, 30}[uni(t, 4)])
 		} else {
-			c.Src = genGrammar(t, kind)
+			c.Src, c.Mut = genGrammarL(t, kind, 0)
 		}
 	default:
 		c.Gen = "corpus"
@@ -1056,6 +1068,10 @@ func genCase(t *rapid.T) Case {
 	nm := uni(t, 4)
 	if c.Gen == "corpus" && nm == 0 {
 		nm = 1
+	}
+	if c.Gen == "splat" && uni(t, 10) < 7 {
+		// (this class is about evaluation: most of its cases stay unmutated so that they still parse)
+		nm = 0
 	}
 	for i := 0; i < nm; i++ {
 		k := mutKinds[uni(t, len(mutKinds))]
